@@ -22,6 +22,7 @@ INVARIANT MeanIsWeightedMean
 INVARIANT VarianceIsTwoPass
 INVARIANT ScheduleIndependent
 INVARIANT NoError
+INVARIANT DirectVarLemma
 INVARIANT FitsInv
 CONSTRAINT Emit
 CHECK_DEADLOCK FALSE
